@@ -2,6 +2,7 @@
 from __future__ import annotations
 
 import ast
+import re
 
 from ..cfg import always_raises
 from ..core import AnalysisError, FunctionInfo, calls_in, call_name, dotted, unparse, walk_no_nested
@@ -41,6 +42,14 @@ def _event(st: ast.stmt) -> str | None:
         return "scope"
     if any(c in ("_code_gen", "generate_block") for c in cs) or "SymbolNode" in cs or ".add_symbol" in txt:
         return "body"
+    return None
+
+
+def dynamic_scope_dispatch(fn: FunctionInfo) -> str | None:
+    """a call through a table / variable that receives the resolver (`TABLE[kind](resolver, ...)`): the scope it may open is not visible"""
+    for c in calls_in(fn.node):
+        if isinstance(c.func, (ast.Subscript, ast.Call)) and any(unparse(a) == "resolver" for a in c.args):
+            return unparse(c)[:60]
     return None
 
 
@@ -220,8 +229,20 @@ def r3_lookup_chain(ctx: Ctx) -> None:
     gi = ctx.repo.func(SYMBOLS, "Scope.__getitem__")
     raises = [n for n in walk_no_nested(gi.node) if isinstance(n, ast.Raise)]
     ctx.check(len(raises) == 1 and "SymbolNotDefined" in unparse(raises[0]), "Scope.__getitem__:undefined", "an undefined name raises SymbolNotDefined")
-    reads = [unparse(r.value) for r in returns_of(gi.node)]
-    ctx.check(reads == [f"self.code_symbols[{gi.params()[1]}]", f"self.symbols[{gi.params()[1]}]"], "Scope.__getitem__:tables", f"reads this scope's own tables; found {reads}")
+    from ..match import canon as _canon8
+
+    item = gi.params()[1]
+    reads = []
+    for r in returns_of(gi.node):
+        v = r.value
+        if isinstance(v, ast.Call) and call_name(v) == "cast" and len(v.args) == 2:
+            v = v.args[1]
+        t = _canon8(gi.node, v)
+        m = re.fullmatch(r"(self\.\w+)\.get\(" + re.escape(item) + r"(?:, \w+)?\)", t)
+        reads.append(f"{m.group(1)}[{item}]" if m else t)
+    if not all(re.fullmatch(r"self\.\w+\[" + re.escape(item) + r"\]", t) for t in reads):
+        raise AnalysisError(f"Scope.__getitem__: returns {reads}; not modelled")
+    ctx.check(reads == [f"self.code_symbols[{item}]", f"self.symbols[{item}]"], "Scope.__getitem__:tables", f"reads this scope's own tables, blocks first; found {reads}")
     gt = ctx.repo.func(SYMBOLS, "Scope.get_table")
     ctx.check(get_table_own_first(gt), "Scope.get_table:own-first", f"a scope's own table wins, else the enclosing scope's; found: {show(return_facts(gt))}")
     # nobody else reads the tables for lookup
